@@ -11,7 +11,10 @@ def run(rep, tier, seed):
         rep.checker_error(f'ORDER table disagrees with CPython positions (or too few nodes {v["nodes"]}): {v["bad"][:3]}')
     rep.extra['order_validation'] = {'nodes': v['nodes'], 'classes_seen': len(v['classes_seen'])}
     specs, notes = k_traverse.specs('C14')
-    verify_all(rep, specs)
+    v2 = native.run('k_traverse', 'validate_ranks', {})
+    if v2['n_bad'] or v2['nodes'] < 20:
+        rep.checker_error(f'rank tables disagree with CPython positions: {v2}')
+    verify_all(rep, specs + k_traverse.special_specs('C14'))
     rep.extra['not_proved'] = notes
     rep.trusted.append('ORDER table (syntactic field order per AST class) written from the grammar; validated against '
                        'CPython (lineno, col_offset) order on every node of the corpus on every run')
@@ -19,4 +22,4 @@ def run(rep, tier, seed):
     sec['native_entry'] = ('b_read', 'replay')
     rep.bounded(sec)
     rep.remainder = ('the walk generator itself and the position-merging step functions of Call / ClassDef / Dict / '
-                     'MatchMapping / Compare / arguments: bounded stand-in only')
+                     '(Dict / MatchMapping / Compare / arguments ARE proved, by the rank-order specification): bounded stand-in only')
